@@ -286,6 +286,14 @@ func (w *Proxy) Setup() error {
 			}
 		}
 	}
+	// exploration yields: a random subset of sites per run (swarm)
+	if ch.Bool("params", "xsites") {
+		for _, site := range XSites {
+			if ch.Bool("params", "arm:"+site) {
+				s.Armed[site] = true
+			}
+		}
+	}
 	reqIdx := 0
 	for ci := 0; ci < p.NConns; ci++ {
 		cl := peers.NewXClient(s, w.H, w.codec, fmt.Sprintf("cl%d", ci))
@@ -450,3 +458,6 @@ func (w *Proxy) Nontrivial() bool {
 	}
 	return false
 }
+
+// XSites are the exploration yield points in /repo (build tag verif).
+var XSites = []string{"x:proxy.timer.global.cas", "x:proxy.timer.pertry.cas", "x:proxy.upstream.onreceive.cas"}
